@@ -187,6 +187,16 @@ def worker(args):
                 unfold_search(s)
         except Exception:
             pass
+        if s.endswith("/**") and "?" not in s and rng.random() < 0.5:
+            # history: after 'root/**', the plain star searches 'root/*', 'root/*/*', ... of every depth the expansion went through
+            # (each is judged by the monitor like any other call: what the expansion did must not have changed their answer)
+            root = s[:-3]
+            for k in range(1, model.max_len - len(root.split("/")) + 1):
+                rec.count("star_search_after_dstar_of_same_root")
+                try:
+                    unfold_search(root + "/*" * k)
+                except Exception:
+                    pass
         if rng.random() < 0.15:
             extrapolate_check(rec, model, s, unfold_search, SpilException)
         if it % 1499 == 0:
